@@ -213,7 +213,7 @@ pub fn main(args: &[String]) -> i32 {
     for step in 0..steps {
         crate::util::watchdog::beat(&format!("step {step} after {} events", cx.events));
         let ki = match (forced_key, forced.front()) {
-            (Some(fk), Some((100 | 101 | 103 | 104 | 105 | 106, _))) => fk,
+            (Some(fk), Some((100 | 101 | 103 | 104 | 105 | 106 | 107, _))) => fk,
             _ => rng.random_range(0..keys.len()),
         };
         let key = keys[ki].clone();
@@ -275,6 +275,7 @@ pub fn main(args: &[String]) -> i32 {
         let mut ts_val = ts_val;
         let mut forced_lim: Option<usize> = None;
         let mut long_set = false;
+        let mut force_reopen = false;
         // targeted burst: short-lived keys, time passes, small-limit scans and reads
         if forced.is_empty() && cfg.ttl && rng.random_range(0..(if bias == "ttl" || bias == "range" { 15 } else { 45 })) == 0 {
             for _ in 0..rng.random_range(1..4) {
@@ -311,6 +312,19 @@ pub fn main(args: &[String]) -> i32 {
             forced.push_back((19, 50));
             forced.push_back((105, 0));
             forced.push_back((19, 0));
+        }
+        // targeted burst: a generation whose VERSION is far ahead of the wall clock while its EXPIRY is near (explicit
+        // future timestamp, then a TTL counted from now), the expiry passes, the store is closed and reopened (recovery
+        // reads the expired newest generation and drops it), then automatic writes to that key: they exceed every
+        // timestamp recovered from the device
+        if forced.is_empty() && cfg.pers && cfg.ttl && cfg.fmt != 1 && key.len() < 100 && reopens < 6 && rng.random_range(0..35) == 0 {
+            forced_key = Some(ki);
+            forced.push_back((107, 0));
+            forced.push_back((104, 1));
+            forced.push_back((21, 0));
+            forced.push_back((108, 0));
+            forced.push_back((100, 0));
+            forced.push_back((105, 0));
         }
         match bias.as_str() {
             "range" if forced.is_empty() && rng.random_range(0..3) == 0 => op = 19,
@@ -349,6 +363,17 @@ pub fn main(args: &[String]) -> i32 {
             }
             if fop == 105 {
                 op = 4;
+            }
+            if fop == 107 {
+                op = 0;
+                ts_val = cx.now + 50 * E9;
+                ts_choice = Some(ts_val);
+                auto = false;
+                val = vec![b'f'; 33];
+            }
+            if fop == 108 {
+                op = 25;
+                force_reopen = true;
             }
             if fop == 106 {
                 // a patch that writes a longer number into the document just stored at the size limit
@@ -543,7 +568,7 @@ pub fn main(args: &[String]) -> i32 {
                 };
             }
             _ => {
-                if !cfg.pers || reopens >= 6 || rng.random_range(0..4) != 0 { continue; }
+                if !cfg.pers || (!force_reopen && (reopens >= 6 || rng.random_range(0..4) != 0)) { continue; }
                 reopens += 1;
                 let _ = store.flush();
                 match Arc::try_unwrap(store) {
